@@ -108,6 +108,12 @@ def check_single(fit, n_data, extra, fixed, tag):
     rd = fit.get_result_dict()
     if rd.get("ndf") != exp_ndf:
         return {"got": {"result_dict.ndf": rd.get("ndf")}, "expected": exp_ndf, "witness_class": f"{tag}:result_dict"}
+    # the dictionary (what do_fit returns and save_state stores) holds the same goodness of fit, and its ratio to ndf
+    g_ = fit.goodness_of_fit
+    if (g_ is None) != (rd.get("goodness_of_fit") is None) or (g_ is not None and (not np.isclose(rd["goodness_of_fit"], g_, rtol=1e-12, atol=0) or not np.isclose(rd["gof/ndf"], g_ / exp_ndf, rtol=1e-12, atol=0))):
+        return {"got": {k_: rd.get(k_) for k_ in ("goodness_of_fit", "gof/ndf")}, "expected": {"goodness_of_fit": g_, "gof/ndf": None if g_ is None else g_ / exp_ndf}, "witness_class": f"{tag}:result_dict:gof"}
+    if rd.get("chi2_probability") is None and fit.chi2_probability is not None or (rd.get("chi2_probability") is not None and not np.isclose(rd["chi2_probability"], fit.chi2_probability, rtol=1e-12, atol=0)):
+        return {"got": rd.get("chi2_probability"), "expected": fit.chi2_probability, "witness_class": f"{tag}:result_dict:chi2_probability"}
 
 
 @R.oracle("single_fit_formulas", gen_single, obligation="FitBase.")
